@@ -35,9 +35,11 @@ def boundary(api, family, op, domain, range_, dual, k=None, parameters=None, ass
     raise ValueError(family)
 
 
-def potential(api, family, op, space, points, k=None, parameters=None, assembler="dense"):
+def potential(api, family, op, space, points, k=None, parameters=None, assembler="dense", precision=None):
     Pm = api.operators.potential
     kw = dict(parameters=parameters, assembler=assembler)
+    if precision is not None:
+        kw["precision"] = precision
     if family == "laplace":
         return getattr(Pm.laplace, op)(space, points, **kw)
     if family == "helmholtz":
